@@ -39,37 +39,43 @@ RAW_META_KEYS = {"htmlheader", "xhtmlheader", "htmlfooter"}
 
 
 def in_raw_meta_branch(f, n):
-    """Is n only executed when `strcmp(m->key, "<raw key>") == 0` holds?  (then-branch of `== 0` / `!strcmp`, or
-    else-branch of `!= 0` / `strcmp(..)`)"""
-    def key_test(cond):
-        """(literal, sense) : sense True if the condition is true when the key equals the literal."""
-        c = strip(cond)
-        if c is None:
-            return None
-        if c["k"] == "UnaryOperator" and c["op"] == "!":
-            r = key_test(c["c"][0])
-            return None if r is None else (r[0], not r[1])
-        if c["k"] == "BinaryOperator" and c["op"] in ("==", "!=") and const_value(c["c"][1]) == 0:
-            r = key_test(c["c"][0])
-            if r is None:
-                return None
-            # strcmp(..) (sense False: true when different)  == 0 -> equal
-            return (r[0], (not r[1]) if c["op"] == "==" else r[1])
-        if c["k"] == "CallExpr" and c.get("callee") == "strcmp":
+    """Is n only executed when the metadata key equals one of the documented raw keys?  Decided by path condition: with every
+    `strcmp(.., "<raw key>")` decided "different", n must be unreachable (whatever the shape: if / else-if chains, `a || b`,
+    early `continue`)."""
+    from .prog import edpe_blocks
+    found = []
+
+    def lit_of(c):
+        if c is not None and c["k"] == "CallExpr" and c.get("callee") == "strcmp":
             for x in c["c"][1:]:
                 sx = strip(x)
-                if sx is not None and sx["k"] == "StringLiteral":
-                    return (sx.get("s"), False)
+                if sx is not None and sx["k"] == "StringLiteral" and sx.get("s") in RAW_META_KEYS:
+                    return sx["s"]
         return None
-    cur = n
-    for a in f.ancestors(n):
-        if a["k"] == "IfStmt":
-            in_then = a["c"][1] is not None and any(x is cur for x in walk(a["c"][1]))
-            in_else = len(a["c"]) > 2 and a["c"][2] is not None and any(x is cur for x in walk(a["c"][2]))
-            r = key_test(a["c"][0])
-            if r is not None and r[0] in RAW_META_KEYS and ((in_then and r[1]) or (in_else and not r[1])):
-                return r[0]
-        cur = a
+
+    def decide(t_):
+        t2 = strip(t_)
+        if t2 is None:
+            return None
+        l = lit_of(t2)
+        if l is not None:
+            found.append(l)
+            return True                  # non-zero: the key is not this raw key
+        if t2["k"] == "BinaryOperator" and t2["op"] in ("==", "!=") and const_value(t2["c"][1]) == 0:
+            l = lit_of(strip(t2["c"][0]))
+            if l is not None:
+                found.append(l)
+                return t2["op"] == "!="
+        return None
+    pos = f.cfg.positions()
+    z = n
+    while z is not None and z.get("i") not in pos:
+        z = f.parent(z)
+    if z is None:
+        return None
+    blocks = edpe_blocks(f, "?none", 0, extra_decide=decide)
+    if found and pos[z["i"]][0] not in blocks:
+        return sorted(set(found))[0]
     return None
 
 
@@ -421,6 +427,55 @@ def _prev_literal(f, call):
     return None
 
 
+def _raw_by_flag(P, f, c, a):
+    """The sink sits in a static helper `h(.., value, flag)` that prints `value` raw only for one value of a boolean parameter
+    and escaped otherwise.  Then the obligation is the callers': every call that selects the raw branch must itself stand in a
+    documented raw-LaTeX metadata branch."""
+    from .prog import edpe_blocks
+    sa = strip(a)
+    if not f.static or sa is None or sa["k"] != "DeclRefExpr" or sa.get("dk") != "Parm":
+        return None
+    pos = f.cfg.positions()
+    z = c
+    while z is not None and z.get("i") not in pos:
+        z = f.parent(z)
+    if z is None:
+        return None
+    blk = pos[z["i"]][0]
+    vi = [i for i, q in enumerate(f.params) if q[0] == sa["n"]][0]
+    for qi, q in enumerate(f.params):
+        if q[1].replace("const", "").strip() not in ("bool", "_Bool", "int", "short"):
+            continue
+        for raw_when in (True, False):
+            def decide(t_, qn=q[0], val=not raw_when):
+                t2 = strip(t_)
+                if t2 is not None and t2["k"] == "DeclRefExpr" and t2["n"] == qn:
+                    return val
+                return None
+            if blk in edpe_blocks(f, "?none", 0, extra_decide=decide):
+                continue          # still reachable for the other value: the flag does not govern the sink
+            sites = [(g, c2) for g in f.unit.funcs.values() if g is not f for c2 in g.calls(f.name)]
+            if not sites:
+                return None
+            saved = set(RAW_META_KEYS)
+            RAW_META_KEYS.update(RAW_META_KEYS_LATEX)
+            try:
+                for g, c2 in sites:
+                    if 1 + max(qi, vi) >= len(c2["c"]):
+                        return None
+                    cv = const_value(c2["c"][1 + qi])
+                    if cv is not None and bool(cv) != raw_when:
+                        continue      # this call selects the escaped branch
+                    if not in_raw_meta_branch(g, c2):
+                        return None
+            finally:
+                RAW_META_KEYS.clear()
+                RAW_META_KEYS.update(saved)
+            return "printed raw only when `%s` is %s, and every call that passes that value stands in a raw-LaTeX metadata branch" % (
+                q[0], "true" if raw_when else "false")
+    return None
+
+
 def r_sink_latex(P, chk):
     rid = "R-SINK/latex"
     chk.rule(rid, "in the LaTeX writers, document-derived strings are printed through mmd_print_string_latex unless the literal "
@@ -468,6 +523,10 @@ def r_sink_latex(P, chk):
                     RAW_META_KEYS.update(saved)
                 if rawkey:
                     chk.obligation(rid, desc + " - `%s` metadata is documented as raw LaTeX" % rawkey, True)
+                    continue
+                via = _raw_by_flag(P, f, c, a)
+                if via:
+                    chk.obligation(rid, desc + " - " + via, True)
                     continue
                 chk.obligation(rid, desc, False)
                 tag = re.sub(r"[^A-Za-z=\\\[{]", "", (ctx or ""))[-14:]
@@ -577,7 +636,7 @@ def r_attrbreak(P, chk):
                                   "%s prints `%s` with line_breaks enabled right after %r, i.e. inside an attribute value: a hard line break "
                                   "in the text puts a `<` into the attribute" % (f.name, f.src(c["c"][2])[:50], lit[-30:]))
     chk.floor(rid, n, 10, "string-printer calls with line breaks enabled")
-    chk.floor(rid, n_ctx, 6, "of which with a literal context")
+    chk.floor(rid, n_ctx, 3, "of which with a literal context")
 
 
 # ---------------------------------------------------------------------------
